@@ -109,7 +109,7 @@ PROPS = {
              'sets; every runtime class-construction rejection is covered or unreachable from generated code; names and '
              'arities the generators emit exist on the other side; check_nodes runs before any file is written.',
              'that every accepted schema actually imports/compiles',
-             'validator-coverage by predicate abstraction, interface agreement between generators and runtime/headers'),
+             'validator-coverage by predicate abstraction, interface agreement between generators and runtime/headers', claimed=True),
     'C13': P('prophyc terminates with outputs or a designed diagnostic',
              'Exception-escape analysis from prophyc.main: only the designed channel (ProphycError, SystemExit, patch '
              'Exception) may escape; every ply error callback records an error or raises ParseError; argparse errors are '
